@@ -133,7 +133,8 @@ BnDivMod(a, b) ==
     LET d  == 15 - BitLenSmall(b[Len(b)])
         a1 == BnShl(a, d)
         b1 == BnShl(b, d)
-    IN  BnDivLimbs(a1, b1, Len(a1), <<>>, <<>>)
+        r  == BnDivLimbs(a1, b1, Len(a1), <<>>, <<>>)
+    IN  [q |-> r.q, r |-> r.r, rem |-> BnShr(r.r, d)]     \* rem: the true remainder
 
 -----------------------------------------------------------------------------
 (* Doubles                                                                   *)
@@ -281,6 +282,19 @@ NumDiv(x, y) ==
              \* fold a non-zero remainder into a sticky low bit
              qm == IF dm.r = <<>> THEN BnShl(dm.q, 1) ELSE BnAdd(BnShl(dm.q, 1), <<1>>)
          IN  RoundD(IsNeg(x) # IsNeg(y), qm, ExpOf(x) - ExpOf(y) - s - 1)
+
+-----------------------------------------------------------------------------
+(* 11.5.3: the remainder has the sign of the dividend and is exact *)
+NumMod(x, y) ==
+    IF IsNaN(x) \/ IsNaN(y) \/ IsInf(x) \/ IsZero(y) THEN NaN
+    ELSE IF IsInf(y) \/ IsZero(x) THEN x
+    ELSE LET mx == MantOf(x)  ex == ExpOf(x)  my == MantOf(y)  ey == ExpOf(y)
+         IN  IF ex >= ey
+             THEN LET r == BnDivMod(BnShl(mx, ex - ey), my).rem
+                  IN  IF r = <<>> THEN Zero(IsNeg(x)) ELSE Canon(IsNeg(x), r, ey)
+             ELSE IF ey - ex > 60 \/ BnCmp(mx, BnShl(my, ey - ex)) < 0 THEN x
+             ELSE LET r == BnDivMod(mx, BnShl(my, ey - ex)).rem
+                  IN  IF r = <<>> THEN Zero(IsNeg(x)) ELSE Canon(IsNeg(x), r, ex)
 
 -----------------------------------------------------------------------------
 (* Integer-valued operations (ES5 9.4 - 9.7, 15.8.2.6/9)                     *)
